@@ -168,6 +168,17 @@ func scenarioOmni(t *traceWriter, rng *rand.Rand) {
 		var done chan error
 		var addr string
 		var db *sql.DB
+		unanswered := 0
+		// exited reports whether omniwitness.Main has already returned (it must keep serving until cancelled)
+		exited := func() (bool, string) {
+			select {
+			case err := <-done:
+				done <- err
+				return true, fmt.Sprint(err)
+			default:
+				return false, ""
+			}
+		}
 		start := func() {
 			var p persistence.LogStatePersistence = mem
 			if storeKind == "sqlfile" {
@@ -201,8 +212,12 @@ func scenarioOmni(t *traceWriter, rng *rand.Rand) {
 			}
 		}
 		served := func(l *omniLog) (uint64, string, int) {
-			resp, err := http.Get("http://" + addr + "/witness/v0/logs/" + l.id + "/checkpoint")
+			// a wedged store or a service that never came up must not hang the harness: every read has a deadline
+			resp, err := (&http.Client{Timeout: 3 * time.Second}).Get("http://" + addr + "/witness/v0/logs/" + l.id + "/checkpoint")
 			if err != nil {
+				if ne, ok := err.(interface{ Timeout() bool }); ok && ne.Timeout() {
+					unanswered++
+				}
 				return 0, "-", 0
 			}
 			b, _ := io.ReadAll(resp.Body)
@@ -230,7 +245,17 @@ func scenarioOmni(t *traceWriter, rng *rand.Rand) {
 			l.setSz(sched[i][0])
 		}
 		start()
+		time.Sleep(2 * opc.FeedInterval)
+		if ex, msg := exited(); ex {
+			t.line("OMX store=%s phase=startup => exited=1 err=%s", storeKind, hx([]byte(msg)))
+			stop()
+			continue
+		}
 		for st := 0; st < steps; st++ {
+			if unanswered >= 6 {
+				t.line("OMX store=%s phase=step%d => exited=0 unanswered=%d err=%s", storeKind, st, unanswered, hx([]byte("GET checkpoint requests time out")))
+				break
+			}
 			for i, l := range logs {
 				l.setSz(sched[i][st])
 			}
